@@ -300,6 +300,7 @@ func runReplay(f *core.Flags, r *core.Result) {
 		fmt.Printf("pool %d %s reserves %s\n", p.ID, p.Type, w.reserves(ctx, p.ID))
 	}
 	st := newStats()
+	st.Verbose = true
 	fs := w.Evaluate(st, ctx, core.StateHash(w.App, ctx, nil), rp.Config.Sender, rp.Case)
 	fmt.Printf("case: config=%s route=%s kind=%s amounts=%s -> %d failed assertion(s)\n", rp.Config, rp.Case.routeString(), rp.Case.Kind, strings.Join(rp.Case.Amounts, "+"), len(fs))
 	for _, fd := range fs {
@@ -359,12 +360,12 @@ func main() {
 		for k := range ex.Seen {
 			var h [32]byte
 			copy(h[:], k[:])
-			h[15] ^= byte(wi + 1)
+			h[7] ^= byte(wi + 1) // worlds never share states (only 8-byte prefixes are dumped)
 			allSeen.Add(h)
 		}
 		// the root state is not in ex.Seen
 		var h [32]byte
-		h[0], h[15] = 0xff, byte(wi+1)
+		h[0], h[1] = 0xff, byte(wi+1)
 		allSeen.Add(h)
 	}
 	for _, l := range lattices {
